@@ -347,7 +347,7 @@ func runOneSimClose(c scCase) (fails []monFail, info string) {
 			synctest.Wait()
 			if d.err != nil && (c.Cause == "dial-cancel" || c.Cause == "cli-transport-close") {
 				// the abandoned attempt is destroyed before Dial returns: nothing of it is left in the routing table
-				if counts, _, _ := quic.VerifRouting(e.CliTr, nil); len(counts) != 0 {
+				if counts, _, _ := quic.VerifRLRouting(e.CliTr, nil); len(counts) != 0 {
 					fail("simclose/routing-at-return/"+c.Cause, fmt.Sprintf("Dial returned %v but the client transport still routes to %v", d.err, counts))
 				}
 			}
@@ -446,7 +446,7 @@ func runOneSimClose(c scCase) (fails []monFail, info string) {
 				n string
 				t *quic.Transport
 			}{{"client", e.CliTr}, {"server", e.SrvTr}} {
-				counts, _, _ := quic.VerifRouting(tr.t, nil)
+				counts, _, _ := quic.VerifRLRouting(tr.t, nil)
 				if len(counts) != 0 {
 					fail("simclose/routing/"+c.Cause+"/"+tr.n, fmt.Sprintf("routing table of the %s transport after the failed attempt: %v", tr.n, counts))
 				}
@@ -995,7 +995,7 @@ func runOneSimClose(c scCase) (fails []monFail, info string) {
 			}{"server2", srvTr2})
 		}
 		for _, tr := range trs {
-			counts, tokens, _ := quic.VerifRouting(tr.t, nil)
+			counts, tokens, _ := quic.VerifRLRouting(tr.t, nil)
 			if len(counts) != 0 || tokens != 0 {
 				fail("simclose/routing/"+c.Cause+"/"+tr.n, fmt.Sprintf("routing table of the %s transport after the closing period: handlers %v, reset tokens %d", tr.n, counts, tokens))
 			}
